@@ -137,7 +137,7 @@ Print Assumptions C05_rebound_nonvacuous.
 
 (* The guard is needed: the faithful model leaves configured-before-use in two re-binding shapes (findings).
    [b = Button(5); b = Button(8)] before the loop: button_init_emitted is keyed by name, so pinMode(8) is never
-   emitted, yet every pass polls digitalRead(8). *)
+   emitted, yet every pass polls digitalRead(8) (still so after 97f26e6: only the loop-top pass emits pinMode by key). *)
 Theorem C05_button_rebound_refuted : exists its inp n,
   transl_ok its = true /\ one_main_last its = true /\ forallb nested_decl_free (all_stmts its) = true /\
   well_placed its = false /\ cbu (exec inp n its) = false.
@@ -151,6 +151,38 @@ Theorem C05_ultra_rebound_refuted : exists its inp n,
   well_placed its = false /\ cbu (exec inp n its) = false.
 Proof. exact ultra_rebound_refuted_ex. Qed.
 Print Assumptions C05_ultra_rebound_refuted.
+
+(* A Button declared at the top of the main-loop body (emitter.py since 97f26e6) is configured and sampled in setup()
+   exactly like one declared before the loop: same hoisted block for every declaration; with emit()'s dedup sets, for
+   every state of them in which the name has not had its start-up sample, the loop-top declaration emits the sample
+   (preceded by the pinMode line, which is there whenever its key is new), enters the name in button_init_emitted, and a
+   second declaration of the name then emits nothing. *)
+Theorem C05_looptop_button_like_prologue : forall d, d_kind d = KButton -> hoist_loop d = hoist_setup d.
+Proof. exact looptop_button_hoist. Qed.
+Print Assumptions C05_looptop_button_like_prologue.
+
+Theorem C05_looptop_button_sampled_once : forall nm pin r h seen,
+  kmem (nm, 0, 70) seen = false -> pin <> 0 ->
+  let d := mkDecl KButton nm (pin :: r) h in
+  exists t, fst (hoist_loopD d seen) = t ++ [EUse (RPin pin) false] /\
+            (t = [] \/ t = [ECfg (RPin pin) 2]) /\
+            (kmem (nm, pin, 30) seen = false -> t = [ECfg (RPin pin) 2]) /\
+            kmem (nm, 0, 70) (snd (hoist_loopD d seen)) = true /\
+            fst (hoist_loopD d (snd (hoist_loopD d seen))) = [].
+Proof. exact looptop_button_sampled. Qed.
+Print Assumptions C05_looptop_button_sampled_once.
+
+(* def f(): mon.write("m9") / while True: btn = Button(4, on_click=f); mon.write("m2"): inside the guard; a pin that is
+   HIGH from power-up produces no click, a level that rises after the start-up sample one click in the first pass *)
+Example C05_looptop_button_nonvacuous :
+  well_placed w_looptop_button = true /\ transl_ok w_looptop_button = true /\
+  exec_phases high_input 2 w_looptop_button =
+    ([ECfg (RPin 4) 2; EUse (RPin 4) false; ECfg RSer 0],
+     [[EPoll 4; EUse RSer true; EMark 2]; [EPoll 4; EUse RSer true; EMark 2]], false) /\
+  snd (fst (exec_phases rising_input 2 w_looptop_button)) =
+     [[EPoll 4; EHUse RSer true; EHand 9; EUse RSer true; EMark 2]; [EPoll 4; EUse RSer true; EMark 2]].
+Proof. exact looptop_button_example. Qed.
+Print Assumptions C05_looptop_button_nonvacuous.
 
 (* ---------------------------------------------------------------- housekeeping *)
 (* For every program, history and N (no guard): setup() contains no poll / tick / handler event,
